@@ -116,9 +116,13 @@ add("b5_encoder_utf32", "yaml::encoding", desc="Encoder::new(UTF-32) end to end,
     covers=["B5 two supplementary chars"], tier="thorough", props=["C07", "C02"], timeout=3000, mem_gb=20, assumptions=B_SRC)
 add("b6_from_reader_prefix", "yaml::encoding",
     desc="Encoder::from_reader: for every windowing of the source the encoding is decided by the first min(4,len) bytes (reference table) and the peeked bytes are chained back: output = reference transcoding of the whole input",
-    bounds="0..5 source bytes, all values, every windowing (incl. 1-byte first reads)", functions=B_FUN,
-    covers=["B6 utf16le text detected and re-encoded", "B6 utf8 passthrough keeps the peeked bytes", "B6 utf32le detected"],
+    bounds="0..4 source bytes, all values, every windowing (incl. 1-byte first reads); one read of 12 bytes", functions=B_FUN,
+    covers=["B6 utf16le text detected and re-encoded", "B6 utf32le detected"],
     props=["C07", "C02", "C09"], timeout=1500, mem_gb=16, assumptions=B_SRC + B_COPY, replay="none")
+add("b6_from_reader_chain_back", "yaml::encoding",
+    desc="Encoder::from_reader on a UTF-8 stream longer than the 4 peeked bytes: the output is the whole input, i.e. the peeked bytes are chained back in front of the rest, for every windowing",
+    bounds="0..6 source bytes whose first two bytes are neither NUL nor BOM halves", functions=B_FUN, covers=["B6 utf8 passthrough keeps the peeked bytes"],
+    props=["C07", "C02", "C09"], timeout=900, mem_gb=12, assumptions=B_SRC + B_COPY, replay="none")
 add("b6_from_reader_prefix_8", "yaml::encoding", desc="B6 with 0..8 source bytes", bounds="0..8 source bytes", functions=B_FUN,
     covers=["B6 utf32le detected"], tier="thorough", props=["C07", "C02"], timeout=3000, mem_gb=20, assumptions=B_SRC + B_COPY, replay="none")
 
